@@ -293,6 +293,12 @@ func (*c04) Gen(rng *RNG, tier string) []Case {
 				lines = append(lines, fmt.Sprintf("up badcommit %d %s %s", received+1+rng.Intn(3), tok("zz"), tok(sha256Digest(append(append([]byte{}, content[:received]...), 'z', 'z')))), "up log")
 			}
 		}
+		if rng.Chance(1, 4) && !excluded && received != 1 && (stack == "mem" || stack == "wire1") {
+			// a refused write at a wrong offset must not disturb a later resume "where it left off"
+			tail := []byte("tail")
+			lines = append(lines, "up closeresume explicit", fmt.Sprintf("up badwrite %d %s", received+2, tok("zz")), "up closeresume ask", "up write "+tok(string(tail)), "up log")
+			content = append(content, tail...)
+		}
 		good := sha256Digest(content)
 		if rng.Chance(1, 6) {
 			lines = append(lines, "up commit "+tok(sha256Digest(append([]byte("wrong"), content...))), "up get "+tok(good))
